@@ -478,6 +478,45 @@ def noise_home():
     return h
 
 
+KNOWN_ENV = {"NO_COLOR", "TERM", "IMDL_TERM_WIDTH"}
+_ENV_INVENTORY = {}
+
+
+def env_inventory(repo=None):
+    """Names of the environment variables the sources of the repository under check consult: `env::var("X")`, `var_os("X")`,
+    clap's `env = "X"` / `.env("X")` (src/verif.rs aside). Read again on every run (it is a table like the translator's).
+    Any name outside KNOWN_ENV is a new input of the program: every run of the real binary then sets it (to the path of an
+    empty scratch directory - a value that is present, is a path and is not a number), so that a command whose documented
+    behaviour silently depends on it shows the difference in the checks' ordinary oracles. (Added after seeded change C19-15:
+    `--dir` of `imdl completions` could also come from IMDL_COMPLETIONS_DIR.)"""
+    repo = repo or REPO
+    if repo in _ENV_INVENTORY:
+        return _ENV_INVENTORY[repo]
+    names = set()
+    pat = re.compile(r'(?:\bvar|\bvar_os)\(\s*"([A-Za-z_][A-Za-z0-9_]*)"\s*\)|\benv\s*=\s*"([A-Za-z_][A-Za-z0-9_]*)"|\.env\(\s*"([A-Za-z_][A-Za-z0-9_]*)"\s*\)')
+    for dp, dn, fn in os.walk(os.path.join(repo, "src")):
+        for f in fn:
+            if f.endswith(".rs") and f != "verif.rs":
+                try:
+                    txt = open(os.path.join(dp, f), encoding="utf-8", errors="replace").read()
+                except OSError:
+                    continue
+                for m in pat.finditer(txt):
+                    names.add(next(g for g in m.groups() if g))
+    _ENV_INVENTORY[repo] = names
+    return names
+
+
+def unknown_env():
+    """variables of env_inventory() the checks do not know, with the value every run sets them to"""
+    extra = sorted(env_inventory() - KNOWN_ENV)
+    if not extra:
+        return {}
+    d = os.path.join(CACHE, "envdir")
+    os.makedirs(d, exist_ok=True)
+    return {k: d for k in extra}
+
+
 def noise_env():
     """Environment every run of the real binary gets unless the case sets the variable itself: variables imdl does not read
     (it reads NO_COLOR, TERM, IMDL_TERM_WIDTH and the logger's RUST_LOG) and therefore must not react to - a build
@@ -485,9 +524,11 @@ def noise_env():
     configuration that ignores everything. (Added after seeded changes C05-8 and C06-7, which made the result depend on
     SOURCE_DATE_EPOCH and on the user's global gitignore.)"""
     h = noise_home()
-    return {"SOURCE_DATE_EPOCH": "86400", "LANG": "tr_TR.UTF-8", "LC_ALL": "tr_TR.UTF-8", "COLUMNS": "37", "LINES": "9",
-            "CLICOLOR_FORCE": "1", "FORCE_COLOR": "1", "COLORTERM": "truecolor", "XDG_CONFIG_HOME": os.path.join(h, ".config"),
-            "HOME": h, "USER": "nobody", "TMPDIR": tempfile.gettempdir(), "GIT_DIR": os.path.join(h, "no-such-git-dir")}
+    e = {"SOURCE_DATE_EPOCH": "86400", "LANG": "tr_TR.UTF-8", "LC_ALL": "tr_TR.UTF-8", "COLUMNS": "37", "LINES": "9",
+         "CLICOLOR_FORCE": "1", "FORCE_COLOR": "1", "COLORTERM": "truecolor", "XDG_CONFIG_HOME": os.path.join(h, ".config"),
+         "HOME": h, "USER": "nobody", "TMPDIR": tempfile.gettempdir(), "GIT_DIR": os.path.join(h, "no-such-git-dir")}
+    e.update(unknown_env())
+    return e
 
 
 def limited(argv, nofile=None, as_nobody=False):
@@ -789,6 +830,11 @@ class Ctx:
     # -- finish ------------------------------------------------------------
     def finish(self, rule, trusted_base, level="proof", exhaustive=False, extra=None):
         obl = self.obl or {"obligations": [], "ok": False, "checker_cmd": "", "log": "no Coq step ran"}
+        if unknown_env():
+            msg = ("the sources consult environment variables the checks do not know (%s); every run of the real binary set them to "
+                   "the path of an empty directory" % ", ".join(sorted(unknown_env())))
+            self.notes.append(msg)
+            print("NOTE property=%s %s" % (self.pid, msg))
         n_obl = len(obl["obligations"])
         n_dis = sum(1 for o in obl["obligations"] if o["discharged"])
         oracle_fail = [v for v in self.violations if v["kind"] in ("oracle-failure",)]
